@@ -308,18 +308,30 @@ def special_leaf(draw, ctr, files=('inc_a.yaml', 'inc_b.yaml'), allow_structural
     return node
 
 
+def _maybe_anchor(draw, node, ctr):
+    """yaml anchor on a (finished) container, so that later values of the document can be aliases of it"""
+    if len(ctr) > 1 and draw(st.integers(0, 3)) == 0:
+        ctr[1] += 1
+        node['anchor'] = f'a{ctr[1]}'
+
+
 @st.composite
 def full_value(draw, ctr, depth=0, allow_structural=True, scalars=None):
+    # ctr = [node counter, number of anchors defined so far (only when aliases are wanted: len(ctr) > 1)]
+    if len(ctr) > 1 and ctr[1] and draw(st.integers(0, 9)) == 0:
+        return {'t': 'alias', 'name': f'a{draw(st.integers(1, ctr[1]))}'}
     c = draw(st.integers(0, 9))
     if c <= 2 and depth < 3:
         n = draw(st.integers(0, 3))
         keys = draw(st.lists(MERGE_KEYS_NONEG, min_size=n, max_size=n, unique=True))
         node = tdoc.mp([(k, draw(full_value(ctr, depth + 1, allow_structural, scalars))) for k in keys], flow=draw(st.booleans()))
         node.update(_md_flags(draw))
+        _maybe_anchor(draw, node, ctr)
         return node
     if c <= 4 and depth < 3:
         node = tdoc.sq([draw(full_value(ctr, depth + 1, allow_structural, scalars)) for _ in range(draw(st.integers(0, 3)))], flow=draw(st.booleans()))
         node.update(_md_flags(draw))
+        _maybe_anchor(draw, node, ctr)
         return node
     if c <= 6:
         return draw(special_leaf(ctr, allow_structural=allow_structural))
@@ -331,8 +343,8 @@ def full_value(draw, ctr, depth=0, allow_structural=True, scalars=None):
 
 
 @st.composite
-def full_doc(draw, allow_structural=True, scalars=None, min_keys=1):
-    ctr = [0]
+def full_doc(draw, allow_structural=True, scalars=None, min_keys=1, aliases=False):
+    ctr = [0, 0] if aliases else [0]
     n = draw(st.integers(min_keys, 4))
     keys = draw(st.lists(MERGE_KEYS_NONEG.filter(lambda k: isinstance(k, str)), min_size=n, max_size=n, unique=True))
     root = tdoc.mp([(k, draw(full_value(ctr, 1, allow_structural, scalars))) for k in keys])
